@@ -5442,6 +5442,21 @@ func ruleEndiannessAgreement(c *Ctx) {
 						if kind, ord := isHashConv(calleeFunc(info, call)); kind == "enc-bytes" || kind == "dec-bytes" {
 							byPrefix[p] = append(byPrefix[p], use{kind, ord, c.P.Pos(call.Pos()), FuncKey(fd.Obj)})
 						}
+						// integers inside keys: binary.BigEndian.PutUint32 / binary.LittleEndian.Uint32 ...
+						if sel, ok := call.Fun.(*ast.SelectorExpr); ok {
+							if inner, ok := ast.Unparen(sel.X).(*ast.SelectorExpr); ok {
+								if v, ok := info.ObjectOf(inner.Sel).(*types.Var); ok && v.Pkg() != nil && v.Pkg().Path() == "encoding/binary" {
+									ord := map[string]string{"BigEndian": "BE", "LittleEndian": "LE"}[v.Name()]
+									if ord != "" {
+										kind := "dec-bytes"
+										if strings.HasPrefix(sel.Sel.Name, "Put") || strings.HasPrefix(sel.Sel.Name, "Append") {
+											kind = "enc-bytes"
+										}
+										byPrefix[p+" (integers)"] = append(byPrefix[p+" (integers)"], use{kind, ord, c.P.Pos(call.Pos()), FuncKey(fd.Obj)})
+									}
+								}
+							}
+						}
 					}
 					return true
 				})
